@@ -2,6 +2,7 @@ package sym
 
 import (
 	"fmt"
+	"os"
 	"go/types"
 	"runtime/debug"
 	"sort"
@@ -66,97 +67,258 @@ type HarnessResult struct {
 	Exhausted  bool // all paths explored within budget
 }
 
-// RunHarness explores all paths of the harness function.
-func RunHarness(sh *Shared, fn *ssa.Function, opt Options) (res *HarnessResult) {
-	t0 := time.Now()
-	res = &HarnessResult{Name: fn.Name(), Reached: map[string]bool{}}
-	C := smt.NewCtx()
-	S, err := smt.NewSolver(C, opt.Solver, opt.TimeoutMs)
-	if err != nil {
-		res.Errors = append(res.Errors, "solver start: "+err.Error())
-		return res
-	}
-	defer S.Close()
-	defer func() {
-		res.WallS = time.Since(t0).Seconds()
-		res.SolverS = S.Time.Seconds()
-		res.Queries = S.Queries
-	}()
-	funcs := map[string]bool{}
-	work := [][]Decision{nil}
-	seenRep := map[string]int{}
-	maxPaths := opt.MaxPaths
-	if maxPaths == 0 {
-		maxPaths = 50000
-	}
-	res.Exhausted = true
-	for len(work) > 0 {
-		prefix := work[len(work)-1]
-		work = work[:len(work)-1]
-		if res.Stats.Paths >= int64(maxPaths) || (opt.WallLimit > 0 && time.Since(t0) > opt.WallLimit) {
-			res.Exhausted = false
-			res.Reports = append(res.Reports, Report{Kind: "inconclusive", Harness: fn.Name(), Status: "inconclusive",
-				Label: fmt.Sprintf("exploration budget exceeded (%d paths, %.0fs); %d prefixes unexplored", res.Stats.Paths, time.Since(t0).Seconds(), len(work)+1)})
-			res.Stats.Inconclusive++
-			break
+// RunHarness explores all paths of one harness function (single worker).
+func RunHarness(sh *Shared, fn *ssa.Function, opt Options) *HarnessResult {
+	return RunAll(sh, []*ssa.Function{fn}, opt, 1, nil)[0]
+}
+
+type hstate struct {
+	fn       *ssa.Function
+	res      *HarnessResult
+	queue    [][]Decision
+	running  int
+	started  time.Time
+	begun    bool
+	seenRep  map[string]int
+	funcs    map[string]bool
+	maxPaths int
+	stopped  bool
+}
+
+type worker struct {
+	cur *hstate
+	C   *smt.Ctx
+	S   *smt.Solver
+	log *os.File
+}
+
+// RunAll explores every path of every harness with nworkers workers; paths (not only harnesses) are the unit of
+// parallelism: each worker owns a term context and a solver process for the harness it currently works on.
+func RunAll(sh *Shared, fns []*ssa.Function, opt Options, nworkers int, progress func(*HarnessResult)) []*HarnessResult {
+	hs := make([]*hstate, len(fns))
+	for i, fn := range fns {
+		mp := opt.MaxPaths
+		if mp == 0 {
+			mp = 50000
 		}
-		ex := &Exec{C: C, S: S, Prog: sh.Prog, Shared: sh, Sizes: sh.Sizes,
-			H:      &HarnessCfg{Name: fn.Name()},
-			prefix: prefix, globals: map[*ssa.Global]*Obj{}, pkgInit: map[*ssa.Package]bool{},
-			inputSet: map[int]bool{}, inputObjs: map[string]*Obj{}, stats: &res.Stats, funcsEntered: funcs,
-			cuts: map[string]int{}, reached: map[string]bool{}, tables: map[*Cell]string{}}
-		completed, errs := ex.runPath(fn)
-		res.Stats.Paths++
-		res.Stats.Steps += ex.steps
-		if completed {
-			res.Completed++
-			if res.SampleModel == nil && len(ex.inputs) > 0 && res.Completed == 1 {
-				if r, m := ex.satModel(); r == smt.Sat {
-					res.SampleModel = m
+		hs[i] = &hstate{fn: fn, res: &HarnessResult{Name: fn.Name(), Reached: map[string]bool{}, Exhausted: true},
+			queue: [][]Decision{nil}, seenRep: map[string]int{}, funcs: map[string]bool{}, maxPaths: mp}
+	}
+	var mu sync.Mutex
+	cond := sync.NewCond(&mu)
+	pick := func(w *worker) (*hstate, []Decision, bool) {
+		// called with mu held; returns (nil,nil,false) when everything is finished
+		for {
+			var best *hstate
+			anyRunning := false
+			if w.cur != nil && len(w.cur.queue) > 0 && !w.cur.stopped {
+				best = w.cur
+			}
+			for _, h := range hs {
+				if h.running > 0 {
+					anyRunning = true
+				}
+				if best != nil || h.stopped || len(h.queue) == 0 {
+					continue
 				}
 			}
-		}
-		if ex.H.MaxPaths > 0 {
-			maxPaths = ex.H.MaxPaths
-		}
-		for l := range ex.reached {
-			res.Reached[l] = true
-		}
-		res.Errors = append(res.Errors, errs...)
-		for _, im := range ex.imprecise {
-			found := false
-			for _, x := range res.Imprecise {
-				if x == im {
-					found = true
+			if best == nil {
+				// prefer harnesses nobody works on, then the one with the longest queue per running worker
+				bestScore := -1.0
+				for _, h := range hs {
+					if h.stopped || len(h.queue) == 0 {
+						continue
+					}
+					score := float64(len(h.queue)) / float64(h.running+1)
+					if h.running == 0 {
+						score += 1e6
+					}
+					if score > bestScore {
+						best, bestScore = h, score
+					}
 				}
 			}
-			if !found {
-				res.Imprecise = append(res.Imprecise, im)
+			if best != nil {
+				h := best
+				if !h.begun {
+					h.begun = true
+					h.started = time.Now()
+				}
+				if h.res.Stats.Paths+int64(h.running) >= int64(h.maxPaths) || (opt.WallLimit > 0 && time.Since(h.started) > opt.WallLimit) {
+					h.stopped = true
+					h.res.Exhausted = false
+					h.res.Reports = append(h.res.Reports, Report{Kind: "inconclusive", Harness: h.fn.Name(), Status: "inconclusive",
+						Label: fmt.Sprintf("exploration budget exceeded (%d paths, %.0fs); %d prefixes unexplored", h.res.Stats.Paths, time.Since(h.started).Seconds(), len(h.queue))})
+					h.res.Stats.Inconclusive++
+					h.queue = nil
+					continue
+				}
+				p := h.queue[len(h.queue)-1]
+				h.queue = h.queue[:len(h.queue)-1]
+				h.running++
+				return h, p, true
 			}
-		}
-		for _, r := range ex.reports {
-			key := r.Kind + "|" + r.Label + "|" + r.Site + "|" + r.Status
-			seenRep[key]++
-			if seenRep[key] == 1 {
-				res.Reports = append(res.Reports, r)
+			if !anyRunning {
+				return nil, nil, false
 			}
-		}
-		work = append(work, ex.pending...)
-		if len(errs) > 0 && opt.Debug {
-			break
+			cond.Wait()
 		}
 	}
-	for f := range funcs {
-		res.Funcs = append(res.Funcs, f)
+	var wg sync.WaitGroup
+	for wi := 0; wi < nworkers; wi++ {
+		wg.Add(1)
+		go func() {
+			defer wg.Done()
+			w := &worker{}
+			defer func() {
+				if w.S != nil {
+					w.S.Close()
+				}
+				if w.log != nil {
+					w.log.Close()
+				}
+			}()
+			for {
+				mu.Lock()
+				h, prefix, ok := pick(w)
+				mu.Unlock()
+				if !ok {
+					cond.Broadcast()
+					return
+				}
+				if w.cur != h || w.S == nil {
+					if w.S != nil {
+						w.S.Close()
+						w.S = nil
+					}
+					if w.log != nil {
+						w.log.Close()
+						w.log = nil
+					}
+					w.cur = h
+					w.C = smt.NewCtx()
+					S, err := smt.NewSolver(w.C, opt.Solver, opt.TimeoutMs)
+					if err != nil {
+						mu.Lock()
+						h.res.Errors = append(h.res.Errors, "solver start: "+err.Error())
+						h.running--
+						h.stopped = true
+						mu.Unlock()
+						cond.Broadcast()
+						continue
+					}
+					w.S = S
+					if lp := os.Getenv("SYMGO_SMTLOG"); lp != "" {
+						if f, err := os.Create(fmt.Sprintf("%s.%s.%p.smt2", lp, h.fn.Name(), w)); err == nil {
+							w.log = f
+							S.Log = f
+						}
+					}
+				}
+				var st Stats
+				funcs := map[string]bool{}
+				q0, t0 := w.S.Queries, w.S.Time
+				ex := &Exec{C: w.C, S: w.S, Prog: sh.Prog, Shared: sh, Sizes: sh.Sizes,
+					H:      &HarnessCfg{Name: h.fn.Name()},
+					prefix: prefix, globals: map[*ssa.Global]*Obj{}, pkgInit: map[*ssa.Package]bool{},
+					inputSet: map[int]bool{}, inputObjs: map[string]*Obj{}, stats: &st, funcsEntered: funcs,
+					cuts: map[string]int{}, reached: map[string]bool{}, tables: map[*Cell]string{}}
+				pt0 := time.Now()
+				completed, errs := ex.runPath(h.fn)
+				var sample map[string]uint64
+				mu.Lock()
+				needSample := completed && h.res.SampleModel == nil && len(ex.inputs) > 0
+				mu.Unlock()
+				if needSample {
+					if r, m := ex.satModel(); r == smt.Sat {
+						sample = m
+					}
+				}
+				solverErrs := w.S.TakeErrors()
+				mu.Lock()
+				res := h.res
+				res.Stats.Paths++
+				res.Stats.Steps += ex.steps
+				res.Stats.FeasQueries += st.FeasQueries
+				res.Stats.AssertQueries += st.AssertQueries
+				res.Stats.Proved += st.Proved
+				res.Stats.Violated += st.Violated
+				res.Stats.Inconclusive += st.Inconclusive
+				res.Stats.Merges += st.Merges
+				res.Stats.MergeFails += st.MergeFails
+				if st.MaxPC > res.Stats.MaxPC {
+					res.Stats.MaxPC = st.MaxPC
+				}
+				res.Queries += w.S.Queries - q0
+				res.SolverS += (w.S.Time - t0).Seconds()
+				res.WallS += time.Since(pt0).Seconds()
+				if completed {
+					res.Completed++
+					if res.SampleModel == nil && sample != nil {
+						res.SampleModel = sample
+					}
+				}
+				if ex.H.MaxPaths > 0 {
+					h.maxPaths = ex.H.MaxPaths
+				}
+				for l := range ex.reached {
+					res.Reached[l] = true
+				}
+				for f := range funcs {
+					h.funcs[f] = true
+				}
+				res.Errors = append(res.Errors, errs...)
+				if len(solverErrs) > 0 && len(res.Errors) < 20 {
+					if len(solverErrs) > 3 {
+						solverErrs = solverErrs[:3]
+					}
+					res.Errors = append(res.Errors, "solver: "+strings.Join(solverErrs, " | "))
+				}
+				for _, im := range ex.imprecise {
+					found := false
+					for _, x := range res.Imprecise {
+						if x == im {
+							found = true
+						}
+					}
+					if !found {
+						res.Imprecise = append(res.Imprecise, im)
+					}
+				}
+				for _, r := range ex.reports {
+					key := r.Kind + "|" + r.Label + "|" + r.Site + "|" + r.Status
+					h.seenRep[key]++
+					if h.seenRep[key] == 1 {
+						res.Reports = append(res.Reports, r)
+					}
+				}
+				if !h.stopped {
+					h.queue = append(h.queue, ex.pending...)
+				}
+				if len(errs) > 0 && opt.Debug {
+					h.stopped = true
+					h.queue = nil
+				}
+				h.running--
+				finished := h.running == 0 && len(h.queue) == 0
+				mu.Unlock()
+				cond.Broadcast()
+				if finished && progress != nil {
+					progress(h.res)
+				}
+			}
+		}()
 	}
-	sort.Strings(res.Funcs)
-	if se := S.TakeErrors(); len(se) > 0 {
-		if len(se) > 5 {
-			se = se[:5]
+	wg.Wait()
+	out := make([]*HarnessResult, len(hs))
+	for i, h := range hs {
+		for f := range h.funcs {
+			h.res.Funcs = append(h.res.Funcs, f)
 		}
-		res.Errors = append(res.Errors, "solver: "+strings.Join(se, " | "))
+		sort.Strings(h.res.Funcs)
+		out[i] = h.res
 	}
-	return res
+	return out
 }
 
 // runPath executes the harness once along ex.prefix (and beyond). completed = the harness function returned.
@@ -180,6 +342,24 @@ func (ex *Exec) runPath(fn *ssa.Function) (completed bool, errs []string) {
 			}
 		}
 	}()
+	defer func() {
+		// discharge outstanding implicit checks of this path (also when the path ended early)
+		if r := recover(); r != nil {
+			ex.safeFlush()
+			panic(r)
+		}
+		ex.safeFlush()
+	}()
 	ex.call(fn, nil, "harness")
 	return true, nil
+}
+
+func (ex *Exec) safeFlush() {
+	defer func() {
+		if r := recover(); r != nil {
+			ex.report(Report{Kind: "inconclusive", Label: fmt.Sprintf("flush failed: %v", r), Status: "inconclusive"})
+			ex.stats.Inconclusive++
+		}
+	}()
+	ex.flush()
 }
